@@ -204,24 +204,23 @@ def wire_uniqueness(ctx, rule="C03.wire-uniqueness"):
     # documented convention: self.merge(other) returns other * self, so the receiver is the EARLIER command
     mc = merges[0]
     rd = rd_of(f.node)
-    def wire_pos(e):
-        # q[i] -> 0, q[i + 1] -> 1 for the operand expression e (= <name>.op)
+    def wire_idx(e):
+        # the subscript expression of the wire list the operand <name>.op was read from
         if not (isinstance(e, ast.Attribute) and e.attr == "op" and isinstance(e.value, ast.Name)):
             return None
         out = set()
         for d in rd.reaching(e.value.id, mid):
             v = d.value
             if d.kind == "assign" and isinstance(v, ast.Subscript):
-                t = ast.unparse(v.slice).replace(" ", "")
-                out.add(0 if t == "i" else 1 if t in ("i+1", "1+i") else None)
+                out.add(ast.unparse(v.slice).replace(" ", ""))
             else:
                 out.add(None)
         return out.pop() if len(out) == 1 else None
-    pr, pa = wire_pos(mc.func.value), wire_pos(mc.args[0]) if mc.args else None
-    if pr is None or pa is None:
+    ir, ia = wire_idx(mc.func.value), wire_idx(mc.args[0]) if mc.args else None
+    if ir is None or ia is None or not (ia in (f"{ir}+1", f"1+{ir}") or ir in (f"{ia}+1", f"1+{ia}")):
         ctx.na(rule, f.site, "operands of the merge call not recognised as q[i] / q[i + 1]")
     else:
-        ok = (pr, pa) == (0, 1)
+        ok = ia in (f"{ir}+1", f"1+{ir}")
         ctx.ob(rule, f.site, ok, "" if ok else "the later command is the receiver of merge(): order-sensitive merges "
                "(Preparation.merge returns `other`, Decomposition.merge returns U2 @ U1) keep / compose the wrong way round",
                role="merge-order", line=mc.lineno)
@@ -230,6 +229,29 @@ def wire_uniqueness(ctx, rule="C03.wire-uniqueness"):
     ok = bool(ins) and all(len(c.args) == 2 and (dotted(c.args[1]) or "").endswith(".reg") for c in ins)
     ctx.ob(rule, f.site, ok, "" if ok else "the merged command is not placed on the register of the merged operations",
            role="merged-reg", line=f.node.lineno)
+    # commands leave the circuit only as a merged pair: the grid is built from the unfiltered input and every
+    # deletion is dominated by the (successful) merge call
+    grids = [n for n in walk_no_nested(f.node) if isinstance(n, ast.Call) and dotted(n.func) == "list_to_grid"]
+    ctx.require(grids, "optimize_circuit no longer builds the wire grid with list_to_grid")
+    for gcall in grids:
+        d = derives(f.node, gcall.args[0]) if gcall.args else None
+        filt = d is None or f.pos_params[0] not in d.params or any(
+            isinstance(e, (ast.ListComp, ast.GeneratorExp)) and any(g.ifs for g in e.generators) or
+            isinstance(e, ast.Call) and dotted(e.func) in ("filter", "itertools.filterfalse") or
+            isinstance(e, ast.Subscript) and isinstance(e.slice, ast.Slice) for e in d.exprs)
+        ctx.ob(rule, f.site, not filt, "" if not filt else "the wire grid is built from a filtered / sliced copy of the input: "
+               "commands are dropped without having been merged with a neighbour", role="unfiltered-input", line=gcall.lineno)
+    k = 0
+    for n in walk_no_nested(f.node):
+        is_del = isinstance(n, ast.Delete) or isinstance(n, ast.Call) and isinstance(n.func, ast.Attribute) and \
+            n.func.attr in ("pop", "remove", "clear", "popitem")
+        if not is_del:
+            continue
+        k += 1
+        ids = cfg.node_of_expr(n) if not isinstance(n, ast.Delete) else cfg.find(n)
+        ok = bool(ids) and cfg.dominates(mid, ids[0])
+        ctx.ob(rule, f.site, ok, "" if ok else f"`{ast.unparse(n)[:50]}` removes commands without a successful merge of "
+               "the removed pair", role=f"delete-after-merge{k}", line=n.lineno)
     # MergeFailure is the only exception swallowed
     hs = [h for n in walk_no_nested(f.node) if isinstance(n, ast.Try) for h in n.handlers]
     ok = bool(hs) and all(h.type is not None and dotted(h.type) == "MergeFailure" for h in hs)
